@@ -4,7 +4,7 @@ from pyvc import z as Z
 from pyvc.run import Item
 
 TARGETS = ['clastic.middleware.core.check_middleware', 'clastic.middleware.core.check_middlewares',
-           'clastic.middleware.core.make_middleware_chain']
+           'clastic.middleware.core.make_middleware_chain', 'clastic.route.BoundRoute.__init__']
 
 CANARIES = [
     {'name': 'conflict-threshold-weakened', 'file': 'clastic/middleware/core.py',
